@@ -201,7 +201,30 @@ def main(rep, ws, tier):
             ok = fa is not None and ctx.requal(r, (want, P.pconst(1)))
         except P.NotPoly:
             ok = False
-        rep.ob('%s::nextf(a,b)' % ('Rand32' if '32' in nm else 'Rand48'), 'R18.range', HOLDS if ok else VIOLATED, 'a*(1-f) + b*f with f = nextf(): a convex combination' if ok else 'returns %s' % T.show(o, 4)[:200], whereh)
+        # ... and in the convex *form*: each endpoint enters only through one product with a weight that does not depend
+        # on the endpoints (weights f and 1-f in [0,1]), so no intermediate exceeds max(|a|,|b|): a + (b-a)*f is the same
+        # polynomial but overflows for wide ranges and rounds differently
+        ea, eb = T.inp('a2', 0, sz, ty), T.inp('a3', 0, sz, ty)
+        def mentions(x, leaves_):
+            seen_ = set(); st_ = [x]
+            while st_:
+                y = st_.pop()
+                if y.id in seen_: continue
+                seen_.add(y.id)
+                if any(y is l for l in leaves_): return True
+                st_.extend(y.args)
+            return False
+        form = None
+        if ok:
+            terms = list(o.args) if o.op == 'fadd' else []
+            used = []
+            for tm in terms:
+                if tm.op == 'fmul' and len(tm.args) == 2:
+                    for x, w in ((tm.args[0], tm.args[1]), (tm.args[1], tm.args[0])):
+                        if (x is ea or x is eb) and not mentions(w, (ea, eb)): used.append(x)
+            if len(terms) != 2 or sorted(u.id for u in used) != sorted((ea.id, eb.id)):
+                form = 'the result is polynomially a*(1-f)+b*f but is not computed as a sum of two endpoint*weight products (%s): an intermediate such as b-a can overflow although the result lies in [a,b]' % T.show(o, 4)[:160]
+        rep.ob('%s::nextf(a,b)' % ('Rand32' if '32' in nm else 'Rand48'), 'R18.range', HOLDS if (ok and not form) else VIOLATED, 'a*(1-f) + b*f with f = nextf(): a convex combination, computed as two endpoint*weight products' if (ok and not form) else (form or 'returns %s' % T.show(o, 4)[:200]), whereh)
     for nm, callee in (('w_r48_nexti', 'nrand48'), ('w_r48_nextf', 'erand48')):
         S = I2.run(nm); o = S.out('a0', 0, 8, None)
         ok = o.op == 'call' and callee in str(o.attr)
